@@ -182,7 +182,8 @@ def check_biginteger_sign_room(ctx, pt, rule='C01.R3'):
 def check_shared_defaults(ctx):
     """C01.R6: no codec object shares a mutable container with other instances through a constructor default."""
     ctx.rule('C01.R6', 'no constructor of a codec class stores a mutable default argument (a list/dict/set evaluated once at definition time) into an instance field that the class fills in place (append/extend/insert/item store, as the decoders do): otherwise every instance built with the default shares one container and what one message decodes shows up in the next')
-    MUT = ('append', 'extend', 'insert', 'update', 'add', 'setdefault', 'remove', 'pop', 'clear')
+    MUT = ('append', 'extend', 'insert', 'update', 'add', 'setdefault', 'remove', 'pop', 'clear', 'read', 'read_value')     # read: a codec object decodes in place
+    IMMUTABLE_BUILDERS = ('tuple', 'frozenset', 'str', 'int', 'float', 'bool', 'bytes', 'complex', 'object')
     n_cls = 0
     n_def = 0
     for rel in ctx.src.modules('kmip/core'):
@@ -197,7 +198,8 @@ def check_shared_defaults(ctx):
             defaults = dict(zip([x.arg for x in pos[len(pos) - len(a.defaults):]], a.defaults))
             defaults.update({k.arg: d for k, d in zip(a.kwonlyargs, a.kw_defaults) if d is not None})
             for pname, d in sorted(defaults.items()):
-                mutable = isinstance(d, (ast.List, ast.Dict, ast.Set, ast.ListComp, ast.DictComp, ast.SetComp)) or (isinstance(d, ast.Call) and call_name(d) in ('list', 'dict', 'set', 'bytearray', 'collections.OrderedDict', 'OrderedDict'))
+                # a container display, or any object built by a call (HashingAlgorithm(), DigestValue(): codec objects are mutable - read() fills them in place)
+                mutable = isinstance(d, (ast.List, ast.Dict, ast.Set, ast.ListComp, ast.DictComp, ast.SetComp)) or (isinstance(d, ast.Call) and call_name(d) not in IMMUTABLE_BUILDERS)
                 if not mutable:
                     continue
                 n_def += 1
@@ -229,6 +231,9 @@ def check_shared_defaults(ctx):
                         if isinstance(x, ast.Subscript) and isinstance(x.ctx, (ast.Store, ast.Del)) and isinstance(x.value, ast.Attribute) and isinstance(x.value.value, ast.Name) and x.value.value.id == 'self' \
                                 and x.value.attr in fields:
                             hits.append('item store on %s in %s (line %d)' % (x.value.attr, f.name, x.lineno))
+                        if isinstance(x, ast.Attribute) and isinstance(x.ctx, (ast.Store, ast.Del)) and isinstance(x.value, ast.Attribute) and isinstance(x.value.value, ast.Name) and x.value.value.id == 'self' \
+                                and x.value.attr in fields:
+                            hits.append('field store %s.%s in %s (line %d)' % (x.value.attr, x.attr, f.name, x.lineno))
                 ctx.check(not (fields and hits), 'C01.R6', '%s.__init__|mutable-default %s' % (cls.name, pname), site,
                           'mutable default %s is %s' % (pname, 'not stored into a field' if not fields else 'stored but never filled in place'),
                           'the default of %s (%s, one object for all calls) is stored into %s and the class fills it in place: %s; every instance created with the default shares the container, so decoding one value changes the others' % (pname, U(d), sorted(fields), hits[:3]))
